@@ -43,7 +43,7 @@ RefCases == {[fam |-> "ref", form |-> f, target |-> t] :
                 t \in {"before", "after"}}
 
 \* element vocabulary: one document per structural snippet (indices into the harness's table)
-VocabCases == {[fam |-> "vocab", snippet |-> i, wrap |-> w] : i \in 1..24, w \in {"svg", "svg-g", "fragment"}}
+VocabCases == {[fam |-> "vocab", snippet |-> i, wrap |-> w] : i \in 1..28, w \in {"svg", "svg-g", "fragment"}}
 
 Cases == CASE Family = "number" -> NumCases [] Family = "points" -> PointCases [] Family = "transform" -> TransformCases
            [] Family = "ref" -> RefCases [] Family = "vocab" -> VocabCases [] OTHER -> {}
